@@ -39,7 +39,9 @@ def run(case, idx):
                 with open(path, 'w') as f: f.write(src)
                 importlib.invalidate_caches()
                 try:
-                    importlib.import_module(real); r = 'ok'
+                    mod = importlib.import_module(real); r = 'ok'
+                    # the last statement of every generated module that does not raise sets c20_done: an import that "succeeds" without it never ran the body
+                    if 'c20_done = 1' in src and getattr(mod, 'c20_done', None) != 1: r = 'ok-but-body-not-executed'
                 except BaseException as e:
                     r = type(e).__name__
                 o = f'import {name}={r} registered={int(real in sys.modules)}'
